@@ -208,8 +208,9 @@ def _operand(spec, C):
     return {"int": int, "float": float, "bool": bool}[spec["type"]](v)
 
 
-def operator_call(call, C):
-    """{left, right, op in + - * @} -> {"raw":...} | {"raised": name, message}"""
+def operator_call(call, C, guard=None):
+    """{left, right, op in + - * @} -> {"raw":...} | {"raised": name, message}
+    guard: the guarded allocator; its zones are inspected while the result is still alive."""
     import operator as O
 
     fn = {"+": O.add, "-": O.sub, "*": O.mul, "@": O.matmul}[call["op"]]
@@ -223,9 +224,13 @@ def operator_call(call, C):
     except Exception as e:  # noqa: BLE001
         return {"raised": type(e).__name__, "message": str(e)[:200]}
     try:
-        return {"raw": C.raw_of_tensor(res)}
+        rep = {"raw": C.raw_of_tensor(res)}
     except Exception as e:  # noqa: BLE001
         return {"error": f"result is not a Tensor: {type(res).__name__} {e}"}
+    if guard is not None:
+        rep["guard_zones_overwritten"] = int(guard.guard_check())
+        guard.guard_forget()
+    return rep
 
 
 def cache_history(req, C):
@@ -340,7 +345,16 @@ def main():
             elif op == "llvm_kernels":
                 rep = llvm_kernels(req, bridge, C)
             elif op == "operators":
-                rep = {"results": [operator_call(c, C) for c in req["calls"]]}
+                cap = req.get("capacity")
+                guard = _guard_allocator() if req.get("guard") else None
+                if guard is not None:
+                    guard.guard_forget()
+                with bridge.knobs(capacity=cap):
+                    if cap is not None:
+                        bridge.clear_kernel_cache()  # kernels generated at another capacity must not be reused
+                    rep = {"results": [operator_call(c, C, guard) for c in req["calls"]]}
+                if cap is not None:
+                    bridge.clear_kernel_cache()
             elif op == "cache_history":
                 rep = cache_history(req, C)
             elif op == "items_of_temporary":
